@@ -16,6 +16,55 @@ mod util;
 
 use std::io::Write;
 
+/// Counting allocator: live and peak bytes, so that a `read` that allocates what a peer merely
+/// announces is visible (C06; memory is runtime behaviour the Lean model cannot exhibit).
+pub mod mem {
+    use std::alloc::{GlobalAlloc, Layout, System};
+    use std::sync::atomic::{AtomicUsize, Ordering};
+    pub static LIVE: AtomicUsize = AtomicUsize::new(0);
+    pub static PEAK: AtomicUsize = AtomicUsize::new(0);
+    pub struct Counting;
+    unsafe impl GlobalAlloc for Counting {
+        unsafe fn alloc(&self, l: Layout) -> *mut u8 {
+            let p = System.alloc(l);
+            if !p.is_null() {
+                let live = LIVE.fetch_add(l.size(), Ordering::Relaxed) + l.size();
+                PEAK.fetch_max(live, Ordering::Relaxed);
+            }
+            p
+        }
+        unsafe fn dealloc(&self, p: *mut u8, l: Layout) {
+            LIVE.fetch_sub(l.size(), Ordering::Relaxed);
+            System.dealloc(p, l)
+        }
+        unsafe fn realloc(&self, p: *mut u8, l: Layout, new: usize) -> *mut u8 {
+            let q = System.realloc(p, l, new);
+            if !q.is_null() {
+                if new >= l.size() {
+                    let live = LIVE.fetch_add(new - l.size(), Ordering::Relaxed) + (new - l.size());
+                    PEAK.fetch_max(live, Ordering::Relaxed);
+                } else {
+                    LIVE.fetch_sub(l.size() - new, Ordering::Relaxed);
+                }
+            }
+            q
+        }
+    }
+    /// start measuring: returns the baseline
+    pub fn start() -> usize {
+        let live = LIVE.load(Ordering::Relaxed);
+        PEAK.store(live, Ordering::Relaxed);
+        live
+    }
+    /// peak growth since `start`
+    pub fn peak_since(base: usize) -> usize {
+        PEAK.load(Ordering::Relaxed).saturating_sub(base)
+    }
+}
+
+#[global_allocator]
+static ALLOC: mem::Counting = mem::Counting;
+
 /// Split a text into case blocks (each ends with a line `end`).
 fn split_cases(text: &str) -> Vec<Vec<String>> {
     let mut cases = Vec::new();
@@ -29,7 +78,7 @@ fn split_cases(text: &str) -> Vec<Vec<String>> {
         let tag = t.split_whitespace().next().unwrap_or("");
         match tag {
             "io" | "res" | "wire" | "can" | "new" | "mon" | "out" | "parsed" | "uriview" | "reqheaders"
-            | "statusline" => continue,
+            | "statusline" | "memviol" => continue,
             _ => {}
         }
         if cur.is_empty() && pure::PURE_TAGS.contains(&tag) {
